@@ -20,7 +20,7 @@ def shapes(tier):
     s = [(3, 66, 0, ALL), (2, 64, 1, CHEAP + ["count_ones", "row_iter"]), (3, 130, 0, CHEAP)]
     if tier == "thorough":
         s += [(3, 130, 0, ["add_assign_rows", "count_ones"]), (2, 64, 1, ["swap_columns", "add_assign_rows"]), (3, 128, 2, CHEAP),
-              (4, 65, 0, ALL), (3, 63, 0, ALL), (3, 1, 0, CHEAP), (2, 66, 0, ["ones_in_column"])]
+              (4, 65, 0, ALL), (3, 63, 0, ALL), (3, 2, 0, CHEAP)]
     return s
 
 
@@ -33,7 +33,7 @@ def run(ctx):
     rep.assumptions = ["representation invariant used for the induction: elements.len() >= height*ceil(width/64), any contents; new() and resize() re-establish it",
                        "interface preconditions assumed: indices in range, dest != src, swap_columns hint rows have equal values in both columns"]
     rep.outside = ["the SPARSE representation (SparseBinaryMatrix, SparseBinaryVec, column index, dense tail): no CBMC verdict for three sets and two operations in 25 min, and an arbitrary valid symbolic state cannot be constructed within reach (DESIGN §4 C16)",
-                   "get_sub_row_as_octets, query_non_zero_columns and (in quick) get_ones_in_column: their results are Vecs built by symbolic pushes, for which CBMC gave no verdict in 500 s",
+                   "get_sub_row_as_octets, query_non_zero_columns and get_ones_in_column: their results are Vecs built by symbolic pushes, for which CBMC gave no verdict in 500-800 s",
                    "shapes beyond the listed ones", "hint_column_dense_and_frozen / column acceleration (no-ops for the dense matrix)"]
     ths = []
     for n, (h, w, extra, ops) in enumerate(shapes(ctx.tier)):
@@ -41,7 +41,7 @@ def run(ctx):
         ov = Overlay(ctx.scratch.path, "ov_c16_%s_%d" % (tag, n), std=True, debug_assertions=True)
         ov.append_file("matrix.rs", "c16_matrix.rs", {"@TAG@": tag, "@H@": str(h), "@W@": str(w), "@EXTRA@": str(extra), "@UNWIND@": str(w + 4)})
         hs = ["c16_%s_%s" % (op, tag) for op in ops]
-        th = threading.Thread(target=run_harnesses, args=(ctx, ov, hs), kwargs=dict(timeout_s=900, mem_gb=14, replay_kind="matrix", prefix="c16/", jobs=5))
+        th = threading.Thread(target=run_harnesses, args=(ctx, ov, hs), kwargs=dict(timeout_s=900 if ctx.tier == "quick" else 3000, mem_gb=14 if ctx.tier == "quick" else 24, replay_kind="matrix", prefix="c16/", jobs=5))
         th.start()
         ths.append(th)
     for th in ths:
